@@ -45,7 +45,7 @@ _VALID_TEXT_OUTPUT = attribute_util.string_from_list({"Emit", "Skip"})
 
 def _valid_back_ends(attr, module_source_file):
     """Checks that `attr` holds a valid list of back end specifiers."""
-    if not re.fullmatch(
+    if not attr.value.has_field("string_constant") or not re.fullmatch(
         r"(?:\s*[a-z][a-z0-9_]*\s*(?:,\s*[a-z][a-z0-9_]*\s*)*,?)?\s*",
         attr.value.string_constant.text,
     ):
@@ -56,7 +56,8 @@ def _valid_back_ends(attr, module_source_file):
                     attr.value.source_location,
                     "Attribute '{name}' must be a comma-delimited list of back end "
                     'specifiers (like "cpp, proto")), not "{value}".'.format(
-                        name=attr.name.text, value=attr.value.string_constant.text
+                        name=attr.name.text,
+                        value=ir_data_utils.reader(attr).value.string_constant.text,
                     ),
                 )
             ]
